@@ -23,7 +23,7 @@ def one_transfer(rng, T=16, C=8, kinds=None, sizes=None):
     t.update(extra)
     if kind == 'upload' and t['src'] == 'seekable':
         t['start'] = rng.choice([0, 0, 5])
-        t['flavor'] = rng.choice(['declared', 'declared', 'duck', 'fileno'])
+        t['flavor'] = rng.choice(['declared', 'declared', 'duck', 'fileno', 'seek_none', 'seek_arg'])
     if kind == 'upload' and t['src'] == 'nonseekable':
         t['flavor'] = rng.choice(['bare', 'bare', 'declared', 'raising'])
     if kind == 'download' and t['dst'] == 'path':
@@ -76,6 +76,12 @@ def sprinkle(cases, seed, p_bw=0.12, p_log=0.08, p_prior=0.08, p_version=0.12):
         if r.random() < p_prior and 'prior_use' not in c and not c.get('real'):
             c['prior_use'] = r.choice(['legacy', 'manager', 'overlap'])
         for t in c['transfers']:
+            # subscriber classes whose callbacks are inherited / come from a mixin
+            if isinstance(t, dict) and 'subs' not in t and r.random() < 0.06:
+                t['subs'] = [{'flavor': r.choice(['inherited', 'mixin'])}]
+            # a destination stream that declares itself non-seekable although seek() / tell() exist
+            if isinstance(t, dict) and t.get('kind') == 'download' and t.get('dst') == 'nonseekable' and 'flavor' not in t and r.random() < 0.3:
+                t['flavor'] = 'declared'
             # an OLDER version of the object is asked for (VersionId in the copy source / in the download's extra arguments)
             # while the key's current version holds other data
             if isinstance(t, dict) and t.get('kind') in ('copy', 'download') and 'versioned' not in t and not c.get('real') \
